@@ -10,6 +10,14 @@
 //!       encryption dictionary; every other password of <pws> is rejected with Err and leaves the document
 //!       unchanged; with `alldiff`, no string (outside stream dictionaries) or stream of >= 16 bytes keeps its
 //!       plaintext.
+//!
+//! Passwords.  The model's algorithms work on the password bytes AFTER preparation (PDFDocEncoding for revisions 2-4,
+//! SASLprep + UTF-8 for 5-6); lopdf's API takes the Unicode text.  In a `case` line <ver> and `pws` hold the PREPARED
+//! bytes; an optional sixth element (raw xOWNERTEXT xUSERTEXT (xTEXT ..)) holds the UTF-8 texts handed to lopdf (absent:
+//! the same bytes, printable ASCII).  The harness re-prepares every text by the crate's own route
+//! (PasswordAlgorithm::sanitize_password) and answers (badprep) where the line's prepared bytes are not what lopdf makes
+//! of the text.  In an `enc` line given to this harness <ver> holds the texts.
+//!   (prep 4|6 xTEXT ..) -> (prepared xBYTES|(err) ..)      the crate's preparation (generator aid, src/pwaid.rs)
 use lopdf::encryption::crypt_filters::*;
 use lopdf::{Document, EncryptionState, EncryptionVersion, Object, ObjectId, Permissions};
 use lvh::conv::*;
@@ -17,6 +25,9 @@ use lvh::sx::Sx;
 use std::collections::BTreeMap;
 use std::panic::{catch_unwind, AssertUnwindSafe};
 use std::sync::Arc;
+
+#[path = "../pwaid.rs"]
+mod pwaid;
 
 struct Ver {
     tag: String,
@@ -27,6 +38,9 @@ struct Ver {
     strf: Vec<u8>,
     owner: Vec<u8>,
     user: Vec<u8>,
+    /// the UTF-8 texts lopdf gets (owner / user above: the prepared bytes)
+    owner_text: Vec<u8>,
+    user_text: Vec<u8>,
     key_length: usize,
     perms: Permissions,
 }
@@ -60,6 +74,8 @@ fn ver_of_sx(x: &Sx) -> Option<Ver> {
         strf: vec![],
         owner: vec![],
         user: vec![],
+        owner_text: vec![],
+        user_text: vec![],
         key_length: 40,
         perms: Permissions::all(),
     };
@@ -96,6 +112,8 @@ fn ver_of_sx(x: &Sx) -> Option<Ver> {
         }
         _ => return None,
     }
+    v.owner_text = v.owner.clone();
+    v.user_text = v.user.clone();
     Some(v)
 }
 
@@ -113,9 +131,9 @@ fn sx_err(e: &lopdf::Error) -> Sx {
 
 #[allow(deprecated)]
 fn make_state(v: &Ver, doc: &Document) -> Result<EncryptionState, lopdf::Error> {
-    // passwords of the correspondence cases are ASCII; anything else is fed lossily (direct verdict only)
-    let owner = String::from_utf8_lossy(&v.owner).to_string();
-    let user = String::from_utf8_lossy(&v.user).to_string();
+    // the UTF-8 texts; lopdf prepares them itself
+    let owner = String::from_utf8_lossy(&v.owner_text).to_string();
+    let user = String::from_utf8_lossy(&v.user_text).to_string();
     let version = match v.tag.as_str() {
         "v1" => EncryptionVersion::V1 { document: doc, owner_password: &owner, user_password: &user, permissions: v.perms },
         "v2" => EncryptionVersion::V2 {
@@ -303,7 +321,8 @@ fn filtered_objstm(d: &Document) -> bool {
     d.objects.values().any(|o| o.as_stream().map(|s| s.dict.has_type(b"ObjStm") && s.dict.has(b"Filter")).unwrap_or(false))
 }
 
-fn direct_verdict(doc0: &Document, v: &Ver, pws: &[Vec<u8>], alldiff: bool) -> String {
+/// `pws`: (prepared bytes, text)
+fn direct_verdict(doc0: &Document, v: &Ver, pws: &[(Vec<u8>, Vec<u8>)], alldiff: bool) -> String {
     let st = match make_state(v, doc0) {
         Ok(s) => s,
         Err(e) => return format!("FAIL EncryptionState::try_from: {}", err_class(&e)),
@@ -343,10 +362,10 @@ fn direct_verdict(doc0: &Document, v: &Ver, pws: &[Vec<u8>], alldiff: bool) -> S
         let n = if v.tag == "r5" || v.tag == "v5" { 127 } else { 32 };
         p[..p.len().min(n)].to_vec()
     };
-    for (who, pw) in [("user", &v.user), ("owner", &v.owner)] {
+    for (who, pw, prepared) in [("user", &v.user_text, &v.user), ("owner", &v.owner_text, &v.owner)] {
         // revisions 2-4: an empty owner password means that the document has no owner password (the O entry
         // is then computed from the user password, ISO 32000 Algorithm 3 step a); nothing to open with
-        if who == "owner" && pw.is_empty() && !v.user.is_empty() && matches!(v.tag.as_str(), "v1" | "v2" | "v4") {
+        if who == "owner" && prepared.is_empty() && !v.user.is_empty() && matches!(v.tag.as_str(), "v1" | "v2" | "v4") {
             continue;
         }
         // in memory
@@ -400,8 +419,8 @@ fn direct_verdict(doc0: &Document, v: &Ver, pws: &[Vec<u8>], alldiff: bool) -> S
             }
         }
     }
-    for pw in pws {
-        if trunc(pw) == trunc(&v.user) || trunc(pw) == trunc(&v.owner) {
+    for (prepared, pw) in pws {
+        if trunc(prepared) == trunc(&v.user) || trunc(prepared) == trunc(&v.owner) {
             continue;
         }
         let mut d = enc.clone();
@@ -426,8 +445,23 @@ fn main() {
     lvh::drive(|x| {
         let a = x.args();
         let bad = (Sx::id("badcase"), "skip".to_string());
-        let (Some(tag), true) = (x.tag(), a.len() >= 4) else { return bad };
-        let (Some(doc0), Some(v)) = (doc_of_sx(&a[0]), ver_of_sx(&a[1])) else { return bad };
+        let Some(tag) = x.tag() else { return bad };
+        if tag == "prep" && !a.is_empty() {
+            let r6 = a[0].as_u64().map(|r| r >= 5).unwrap_or(false);
+            let alg = catch_unwind(|| pwaid::prep_algorithm(r6)).ok().flatten();
+            let out = a[1..].iter().map(|t| {
+                let p = match (&alg, t.as_bytes()) {
+                    (Some(alg), Some(raw)) => catch_unwind(AssertUnwindSafe(|| pwaid::prepare(alg, &raw))).ok().flatten(),
+                    _ => None,
+                };
+                p.map(|b| Sx::bytes(&b)).unwrap_or_else(|| Sx::L(vec![Sx::id("err")]))
+            }).collect();
+            return (Sx::tagged("prepared", out), "skip".into());
+        }
+        if a.len() < 4 {
+            return bad;
+        }
+        let (Some(doc0), Some(mut v)) = (doc_of_sx(&a[0]), ver_of_sx(&a[1])) else { return bad };
         if tag == "enc" {
             // unsupported parameters (V2 with a key length below 8 bits) make Rc4::new assert: reported as (panic)
             let r = catch_unwind(AssertUnwindSafe(|| {
@@ -445,12 +479,37 @@ fn main() {
             return bad;
         }
         let Some(encd) = doc_of_sx(&a[2]) else { return bad };
-        let pws: Vec<Vec<u8>> = a[3].args().iter().filter_map(|p| p.as_bytes()).collect();
+        let prepared: Vec<Vec<u8>> = a[3].args().iter().filter_map(|p| p.as_bytes()).collect();
+        // (raw xOWNERTEXT xUSERTEXT (xTEXT ..)): the texts lopdf gets; every one must prepare to the line's bytes
+        let mut texts = prepared.clone();
+        let alg = catch_unwind(|| pwaid::prep_algorithm(v.tag == "r5" || v.tag == "v5")).ok().flatten();
+        let prep_ok = |text: &[u8], want: &[u8]| -> bool {
+            alg.as_ref().and_then(|alg| catch_unwind(AssertUnwindSafe(|| pwaid::prepare(alg, text))).ok().flatten()).as_deref() == Some(want)
+        };
+        if let Some(raw) = a.get(5).filter(|y| y.tag() == Some("raw")) {
+            let r = raw.args();
+            let (Some(ot), Some(ut)) = (r.first().and_then(|t| t.as_bytes()), r.get(1).and_then(|t| t.as_bytes())) else { return bad };
+            let ts: Vec<Vec<u8>> = r.get(2).map(|l| l.as_list().unwrap_or(&[]).iter().filter_map(|t| t.as_bytes()).collect()).unwrap_or_default();
+            if ts.len() != prepared.len() {
+                return bad;
+            }
+            if !prep_ok(&ot, &v.owner) || !prep_ok(&ut, &v.user) {
+                return (Sx::L(vec![Sx::id("badprep")]), "skip".into());
+            }
+            v.owner_text = ot;
+            v.user_text = ut;
+            texts = ts;
+        }
+        let pws: Vec<(Vec<u8>, Vec<u8>)> = prepared.into_iter().zip(texts).collect();
         let flag = |name: &str| a.get(4).map(|f| f.args().iter().any(|y| y.is_id(name)) || f.tag() == Some(name)).unwrap_or(false);
         let alldiff = flag("alldiff");
         let mut dec = vec![];
         let unmodelled = filtered_objstm(&encd);
-        for pw in &pws {
+        for (prepared, pw) in &pws {
+            if !prep_ok(pw, prepared) {
+                dec.push(Sx::L(vec![Sx::id("badprep")]));
+                continue;
+            }
             let mut d = encd.clone();
             let r = catch_unwind(AssertUnwindSafe(|| decrypt_with(&mut d, pw)));
             dec.push(match r {
